@@ -5,14 +5,14 @@ namespace Taskpool
 
 /-- slot conservation against the size the pool was constructed with (for an unbounded pool: the counter stays
 unbounded), the phase invariant and the registry invariant -/
-def GoodC (c : Cfg) (p : Pool) : Prop := Good c.size0 true p
+def GoodC (c : Cfg) (p : Pool) : Prop := Good c.size0 true true p
 
 /-- the same without reference to the configured size: it survives assignments to `pool_size` -/
-def BaseC (_ : Cfg) (p : Pool) : Prop := ∃ cap : Cap, Good cap true p
+def BaseC (_ : Cfg) (p : Pool) : Prop := ∃ cap : Cap, Good cap true false p
 
 /-- the strict variant: additionally no task was ever lost (no `KeyError` in a wrapper, nothing dropped while it held
 a slot) and no `gather_and_close` call exists; an invariant of histories without `gather_and_close` -/
-def StrictC (_ : Cfg) (p : Pool) : Prop := ∃ cap : Cap, Good cap false p
+def StrictC (_ : Cfg) (p : Pool) : Prop := ∃ cap : Cap, Good cap false false p
 
 def noAsync : Op → Bool := fun o => !o.isAsync
 
@@ -24,7 +24,7 @@ theorem noGac_of_noAsync (o : Op) (h : noAsync o = true) : noGac o = true := by
 
 def noSetSize : Op → Bool := fun o => !o.isSetSize
 
-theorem good_init (cap : Cap) (L : Bool) (simple : Option SpawnSpec) : Good cap L (Pool.init cap simple) :=
+theorem good_init (cap : Cap) (L R : Bool) (simple : Option SpawnSpec) : Good cap L R (Pool.init cap simple) :=
   ⟨⟨by cases cap with
       | fin n => exact ⟨n, rfl, by simp [Pool.init, heldL, grantsL]⟩
       | inf => exact ⟨rfl, rfl⟩,
@@ -34,6 +34,7 @@ theorem good_init (cap : Cap) (L : Bool) (simple : Option SpawnSpec) : Good cap 
    ⟨by simp [Pool.init], fun i hi => by simp [Pool.init] at hi⟩,
    fun t tk h => by simp [Pool.init] at h,
    ⟨fun g G h => by simp [Pool.init] at h, fun a A g h => by simp [Pool.init] at h⟩,
+   fun _ v _ _ _ w hw => by simp [Pool.init] at hw, fun _ => rfl,
    fun _ => rfl, fun _ A hA => by simp [Pool.init] at hA⟩,
    ⟨fun t tk h _ => by simp [Pool.init] at h, fun m r h => by simp [Pool.init] at h,
     fun m r h => by simp [Pool.init] at h⟩⟩
@@ -41,7 +42,7 @@ theorem good_init (cap : Cap) (L : Bool) (simple : Option SpawnSpec) : Good cap 
 theorem goodC_invariant : PoolInvariant GoodC noSetSize where
   init := by
     intro c simple _
-    exact good_init c.size0 true simple
+    exact good_init c.size0 true true simple
   op := by
     intro c p orders o ho hg
     have h1 := (Pool.tame_setOrders p orders).good hg
@@ -54,19 +55,20 @@ theorem goodC_invariant : PoolInvariant GoodC noSetSize where
     exact (tame_of_eq p { p with emit := [] } rfl rfl).good hg
 
 /-- an assignment to `pool_size` re-bases slot conservation; phase and registry invariants do not care -/
-theorem good_setSize {cap : Cap} {L : Bool} (p : Pool) (v : Int) (hg : Good cap L p) : ∃ cap', Good cap' L (p.doSetSize v).1 := by
+theorem good_setSize {cap : Cap} {L : Bool} (p : Pool) (v : Int) (hg : Good cap L false p) :
+    ∃ cap', Good cap' L false (p.doSetSize v).1 := by
   unfold Pool.doSetSize
   split
   · exact ⟨cap, hg⟩
   · exact ⟨.fin (v.toNat + heldL p.tasks + grantsL p.sem.waiters), ⟨⟨v.toNat, rfl, rfl⟩, hg.phase,
-      hg.reg.of_eq rfl rfl rfl rfl rfl, hg.grp.of_eq rfl rfl, hg.life.of_eq rfl rfl, hg.fl.frame rfl rfl (fun _ h => h), hg.ll, hg.al⟩, hg.map.of_eq rfl rfl⟩
+      hg.reg.of_eq rfl rfl rfl rfl rfl, hg.grp.of_eq rfl rfl, hg.life.of_eq rfl rfl, hg.fl.frame rfl rfl (fun _ h => h), fun h => Bool.noConfusion h, fun h => Bool.noConfusion h, hg.ll, hg.al⟩, hg.map.of_eq rfl rfl⟩
 
 /-- phase and registry invariants (with *some* slot conservation) hold in every pool after **every** history,
 assignments to `pool_size` included -/
 theorem baseC_invariant : PoolInvariant BaseC allOps where
   init := by
     intro c simple _
-    exact ⟨c.size0, good_init c.size0 true simple⟩
+    exact ⟨c.size0, good_init c.size0 true false simple⟩
   op := by
     intro c p orders o _ ⟨cap, hg⟩
     have h1 := (Pool.tame_setOrders p orders).good hg
@@ -86,7 +88,7 @@ theorem baseC_invariant : PoolInvariant BaseC allOps where
 theorem strictC_invariant : PoolInvariant StrictC noGac where
   init := by
     intro c simple _
-    exact ⟨c.size0, good_init c.size0 false simple⟩
+    exact ⟨c.size0, good_init c.size0 false false simple⟩
   op := by
     intro c p orders o ho ⟨cap, hg⟩
     have h1 := (Pool.tame_setOrders p orders).good hg
@@ -105,7 +107,7 @@ theorem strictC_invariant : PoolInvariant StrictC noGac where
 /-- every pool of every world reachable without an assignment to `pool_size`, if constructed with the finite size `n` -/
 theorem goodFin (base : Nat) (h : History) (hn : ∀ x ∈ h, x.admits noSetSize = true) (i : Nat) (c : Cfg) (p : Pool)
     (n : Nat) (hc : ((World.init base).run h).cfgs[i]? = some c) (hp : ((World.init base).run h).pools[i]? = some p)
-    (hsz : c.size0 = .fin n) : Good (.fin n) true p := by
+    (hsz : c.size0 = .fin n) : Good (.fin n) true true p := by
   have := (World.reachable goodC_invariant base h hn).inv i c p hc hp
   unfold GoodC at this
   rw [hsz] at this
@@ -114,7 +116,7 @@ theorem goodFin (base : Nat) (h : History) (hn : ∀ x ∈ h, x.admits noSetSize
 /-- … and if constructed unbounded -/
 theorem goodInf (base : Nat) (h : History) (hn : ∀ x ∈ h, x.admits noSetSize = true) (i : Nat) (c : Cfg) (p : Pool)
     (hc : ((World.init base).run h).cfgs[i]? = some c) (hp : ((World.init base).run h).pools[i]? = some p)
-    (hsz : c.size0 = .inf) : Good .inf true p := by
+    (hsz : c.size0 = .inf) : Good .inf true true p := by
   have := (World.reachable goodC_invariant base h hn).inv i c p hc hp
   unfold GoodC at this
   rw [hsz] at this
